@@ -38,7 +38,7 @@ def _scenario(draw, tier):
         d = draw(st.sampled_from([1, 2, 3]))
     ops = []
     for _ in range(draw(st.integers(1, 4))):
-        k = draw(st.sampled_from(["propose_add", "propose_add", "add_random", "add_duplicate", "add_outlier", "propose", "decoy"]))
+        k = draw(st.sampled_from(["propose_add", "propose_add", "add_random", "add_duplicate", "add_outlier", "propose", "decoy", "anneal"]))
         ops.append([k, draw(st.integers(0, 2 ** 16))])
     return dict(
         d=d, n0=n0, seed=draw(st.integers(0, 2 ** 32 - 1)),
@@ -322,6 +322,15 @@ def execute(sc):
             og = np.random.Generator(np.random.PCG64([s, 5]))
             prop = None
             try:
+                if name == "anneal":
+                    # the public exploration parameter of a live acquisition object is changed between iterations
+                    if sc["acq"] == "UCB" and hasattr(opt.acquisition, "kappa"):
+                        new_kappa = float(sc["kappa"]) * (0.5 if s % 2 else 3.0)
+                        opt.acquisition.kappa = new_kappa
+                        sc = dict(sc, kappa=new_kappa)
+                        stats["fault_kappa_changed_on_live_acquisition"] += 1
+                        spot_oracles(V, opt, sc, bounds, og, stats)
+                    continue
                 if name == "decoy":
                     # another optimiser (other data, other bounds) is built and updated in between: two
                     # optimisers must not share any state
